@@ -857,3 +857,244 @@ pub fn replay(inp: &str, out_dir: &str) {
     }
     sh.finish();
 }
+
+// ------------------------------------------------------------------ C18: stream / file hashing
+#[derive(Clone, Debug)]
+pub enum El {
+    D(usize),
+    E(&'static str, u64),
+    Z,
+}
+fn kind_of(name: &str) -> std::io::ErrorKind {
+    match name {
+        "Interrupted" => std::io::ErrorKind::Interrupted,
+        "WouldBlock" => std::io::ErrorKind::WouldBlock,
+        "UnexpectedEof" => std::io::ErrorKind::UnexpectedEof,
+        "NotFound" => std::io::ErrorKind::NotFound,
+        "PermissionDenied" => std::io::ErrorKind::PermissionDenied,
+        _ => std::io::ErrorKind::Other,
+    }
+}
+fn kind_name(k: std::io::ErrorKind) -> String {
+    format!("{:?}", k)
+}
+struct Scripted<'b> {
+    data: &'b [u8],
+    pos: usize,
+    script: Vec<El>,
+    i: usize,
+    reads: u64,
+    errored: bool,
+    reads_after_error: u64,
+}
+impl<'b> std::io::Read for Scripted<'b> {
+    fn read(&mut self, buf: &mut [u8]) -> std::io::Result<usize> {
+        self.reads += 1;
+        if self.errored {
+            self.reads_after_error += 1;
+            return Ok(0);
+        }
+        if self.i >= self.script.len() {
+            return Ok(0);
+        }
+        let el = self.script[self.i].clone();
+        self.i += 1;
+        match el {
+            El::D(k) => {
+                let n = k.min(buf.len()).min(self.data.len() - self.pos);
+                buf[..n].copy_from_slice(&self.data[self.pos..self.pos + n]);
+                self.pos += n;
+                Ok(n)
+            }
+            El::E(kind, id) => {
+                self.errored = true;
+                Err(std::io::Error::new(kind_of(kind), format!("id={}", id)))
+            }
+            El::Z => Ok(0),
+        }
+    }
+}
+fn io_result_json(r: std::thread::Result<Result<ssdeep::RawFuzzyHash, ssdeep::GeneratorOrIOError>>) -> String {
+    match r {
+        Err(_) => "{\"e\":\"panic\",\"kind\":\"\",\"id\":-1}".to_string(),
+        Ok(Err(ssdeep::GeneratorOrIOError::GeneratorError(e))) => format!("{{\"e\":\"{}\",\"kind\":\"\",\"id\":-1}}", gerr(e)),
+        Ok(Err(ssdeep::GeneratorOrIOError::IOError(e))) => {
+            let msg = e.to_string();
+            let id: i64 = msg.strip_prefix("id=").and_then(|x| x.parse().ok()).unwrap_or(-1);
+            format!("{{\"e\":\"io\",\"kind\":\"{}\",\"id\":{}}}", kind_name(e.kind()), id)
+        }
+        Ok(Ok(h)) => {
+            let s = res_json::<64, 32>(Ok(Ok(h)));
+            format!("{},\"kind\":\"\",\"id\":-1}}", &s[..s.len() - 1])
+        }
+    }
+}
+fn script_json(s: &[El]) -> String {
+    let v: Vec<String> = s
+        .iter()
+        .map(|e| match e {
+            El::D(k) => format!("[\"d\",{}]", (*k).min(1 << 30)),
+            El::E(kind, id) => format!("[\"e\",\"{}\",{}]", kind, id),
+            El::Z => "[\"z\"]".to_string(),
+        })
+        .collect();
+    format!("[{}]", v.join(","))
+}
+impl<'a> GenRec<'a> {
+    /// hash_stream over `data` with a scripted reader; g = the generator that holds exactly the
+    /// bytes delivered before end of file (meaningful when the script contains no error)
+    pub fn stream(&mut self, g: usize, data: &[u8], script: Vec<El>) {
+        let mut rd = Scripted { data, pos: 0, script: script.clone(), i: 0, reads: 0, errored: false, reads_after_error: 0 };
+        let r = catch_unwind(AssertUnwindSafe(|| ssdeep::hash_stream(&mut rd)));
+        self.sh.emit_w(
+            &format!(
+                "{{\"ev\":\"stream\",\"g\":{},\"n\":{},\"script\":{},\"r\":{},\"reads\":{},\"reads_after_error\":{}}}",
+                g, data.len(), script_json(&script), io_result_json(r), rd.reads, rd.reads_after_error
+            ),
+            4,
+        );
+    }
+    pub fn file(&mut self, g: usize, what: &str, path: &std::path::Path, meta: u64, delivered: u64) {
+        let r = catch_unwind(AssertUnwindSafe(|| ssdeep::hash_file(path)));
+        self.sh.emit_w(
+            &format!("{{\"ev\":\"file\",\"g\":{},\"what\":\"{}\",\"meta\":{},\"delivered\":{},\"r\":{}}}", g, what, jsize(meta), jsize(delivered), io_result_json(r)),
+            4,
+        );
+    }
+}
+pub fn drive_streams(a: &Args, w: &Words, thorough: bool) {
+    let mut sh = Shards::new(&a.out, "gen_stream", a.shards);
+    let mut rng = Rng::new(a.seed ^ 0x1818);
+    let mut rec = GenRec::new(&mut sh);
+    rec.fin_every_call = false;
+    let mut nscripts = 0u64;
+    let mut nfaults = 0u64;
+    let mut skipped: Vec<String> = vec![];
+    let kinds = ["Interrupted", "WouldBlock", "UnexpectedEof", "Other", "PermissionDenied"];
+    let mut lens: Vec<usize> = vec![0, 1, 7, 300, 32767, 32768, 32769];
+    if thorough {
+        lens.extend([65535, 65536, 65537, 100000, 40000]);
+    }
+    let tmp = std::env::temp_dir().join(format!("verif_c18_{}_{}", std::process::id(), a.seed));
+    let _ = std::fs::create_dir_all(&tmp);
+    for (li, &len) in lens.iter().enumerate() {
+        let class = rng.below(7);
+        let data = make_input(&mut rng, w, class, len);
+        rec.begin();
+        rec.new_gen(0);
+        rec.update(0, 0, &data);
+        rec.fin(0);
+        // fault-free: any pattern of short reads delivers everything
+        let sizes: [usize; 6] = [1, 2, 7, 32767, 32768, 1 << 30];
+        let patterns = if len <= 400 { 6 } else { 4 };
+        for p in 0..patterns {
+            let mut script = vec![];
+            let mut pos = 0usize;
+            while pos < len && script.len() < 70000 {
+                let k = match p {
+                    0 => 1 << 30,
+                    1 => 32768,
+                    2 => 32767,
+                    3 => *rng.pick(&sizes),
+                    4 => 7,
+                    _ => 1,
+                };
+                if (p == 4 || p == 5) && len > 400 {
+                    break;
+                }
+                script.push(El::D(k));
+                pos += k.min(32768).min(len - pos);
+            }
+            script.push(El::D(1 << 30)); // the read that finds nothing left
+            rec.stream(0, &data, script);
+            nscripts += 1;
+        }
+        // faults: every kind at read index 0, 1, 2, the last data read, the EOF read
+        let base: Vec<El> = {
+            let mut v = vec![];
+            let mut pos = 0usize;
+            let k = if len > 1000 { 20000 } else { 3 };
+            while pos < len {
+                v.push(El::D(k));
+                pos += k.min(len - pos);
+            }
+            v
+        };
+        let nreads = base.len();
+        let mut idxs = vec![0usize, 1, 2, nreads.saturating_sub(1), nreads];
+        idxs.sort();
+        idxs.dedup();
+        for &fi in &idxs {
+            if fi > nreads {
+                continue;
+            }
+            for (ki, kind) in kinds.iter().enumerate() {
+                if !thorough && (fi + ki + li) % 2 == 1 {
+                    continue;
+                }
+                let mut s: Vec<El> = base[..fi].to_vec();
+                s.push(El::E(kind, (fi * 10 + ki) as u64));
+                s.extend_from_slice(&base[fi..]);
+                s.push(El::D(1 << 30));
+                rec.stream(0, &data, s);
+                nscripts += 1;
+                nfaults += 1;
+            }
+        }
+        // premature end of file after a prefix: the hash of the delivered prefix
+        if len >= 7 {
+            let p = if len > 1000 { 20000.min(len - 1) } else { len / 2 };
+            rec.new_gen(1);
+            rec.update(1, 0, &data[..p]);
+            rec.stream(1, &data, vec![El::D(p), El::Z, El::D(1 << 30)]);
+            nscripts += 1;
+        }
+        // files
+        let path = tmp.join(format!("f{}", li));
+        if std::fs::write(&path, &data).is_ok() {
+            let meta = std::fs::metadata(&path).map(|m| m.len()).unwrap_or(0);
+            rec.file(0, "regular", &path, meta, data.len() as u64);
+            let _ = std::fs::remove_file(&path);
+        } else {
+            skipped.push("regular".into());
+        }
+    }
+    rec.begin();
+    rec.new_gen(0);
+    rec.file(0, "missing", &tmp.join("does-not-exist"), 0, 0);
+    rec.file(0, "dir", &tmp, 0, 0);
+    // special files whose metadata size (0) differs from what they deliver
+    let proc = std::path::Path::new("/proc/self/status");
+    if proc.exists() && std::fs::metadata(proc).map(|m| m.len()).unwrap_or(1) == 0 && std::fs::read(proc).map(|c| c.len()).unwrap_or(0) > 0 {
+        let n = std::fs::read(proc).map(|c| c.len()).unwrap_or(0);
+        rec.file(0, "special", proc, 0, n as u64);
+    } else {
+        skipped.push("procfs".into());
+    }
+    let fifo = tmp.join("fifo");
+    let made = std::process::Command::new("mkfifo").arg(&fifo).status().map(|s| s.success()).unwrap_or(false);
+    if made {
+        for payload in [b"some bytes through a pipe".to_vec(), vec![]] {
+            let p2 = fifo.clone();
+            let pl = payload.clone();
+            let th = std::thread::spawn(move || {
+                if let Ok(mut f) = std::fs::OpenOptions::new().write(true).open(&p2) {
+                    use std::io::Write;
+                    let _ = f.write_all(&pl);
+                }
+            });
+            rec.new_gen(2);
+            rec.update(2, 0, &payload);
+            rec.file(2, "special", &fifo, 0, payload.len() as u64);
+            let _ = th.join();
+        }
+        let _ = std::fs::remove_file(&fifo);
+    } else {
+        skipped.push("fifo".into());
+    }
+    let _ = std::fs::remove_dir_all(&tmp);
+    let st = rec.stats();
+    let sk: Vec<String> = skipped.iter().map(|s| format!("\"{}\"", s)).collect();
+    println!("STATS {{\"stream\":{{{},\"scripts\":{},\"fault_scripts\":{},\"skipped\":[{}]}}}}", st, nscripts, nfaults, sk.join(","));
+    sh.finish();
+}
